@@ -191,6 +191,14 @@ theorem readInv_exec (w : World) (s : Sid) (st : Stmt) (w' : World) (o : Out)
   cases st with
   | getBalances ps => exact readInv_getBal _ _ _ _ _ _ h he
   | updateVolumes ds => exact readInv_updVol _ _ _ _ _ h he
+  | insertTx l r i =>
+    simp only [exec] at he
+    obtain ⟨h1, h2, h3, _⟩ := insTx_frame (Or.inl ⟨o, he⟩)
+    unfold ReadInv RowWf; rw [h1, h2, h3]; exact h
+  | insertLog l k hh sy i t =>
+    simp only [exec] at he
+    obtain ⟨h1, h2, h3, _⟩ := insLog_frame (Or.inl ⟨o, he⟩)
+    unfold ReadInv RowWf; rw [h1, h2, h3]; exact h
   | _ =>
     simp only [exec] at he
     repeat' split at he
@@ -201,6 +209,14 @@ theorem readInv_exec (w : World) (s : Sid) (st : Stmt) (w' : World) (o : Out)
 theorem readInv_execF (w : World) (s : Sid) (st : Stmt) (w' : World) (e : Err)
     (h : ReadInv w) (he : exec w s st = .failed w' e) : ReadInv w' := by
   cases st with
+  | insertTx l r i =>
+    simp only [exec] at he
+    obtain ⟨h1, h2, h3, _⟩ := insTx_frame (Or.inr ⟨e, he⟩)
+    unfold ReadInv RowWf; rw [h1, h2, h3]; exact h
+  | insertLog l k hh sy i t =>
+    simp only [exec] at he
+    obtain ⟨h1, h2, h3, _⟩ := insLog_frame (Or.inr ⟨e, he⟩)
+    unfold ReadInv RowWf; rw [h1, h2, h3]; exact h
   | getBalances ps =>
     simp only [exec] at he; unfold getBal at he
     repeat' split at he
@@ -302,6 +318,12 @@ theorem rowIs_step (p : Nat) (r : Row Int) (s t : Sid) (hown : r.own = some s) (
           · rw [h, hown] at h0; cases h0
           · rw [h, hown] at h0; injection h0 with h0; exact absurd h0.symm hts
         · exact h
+    | insertTx l r i =>
+      simp only [exec] at he
+      rw [(insTx_frame (Or.inl ⟨o, he⟩)).1]; exact h
+    | insertLog l k hh sy i t =>
+      simp only [exec] at he
+      rw [(insLog_frame (Or.inl ⟨o, he⟩)).1]; exact h
     | _ =>
       simp only [exec] at he
       repeat' split at he
@@ -311,6 +333,12 @@ theorem rowIs_step (p : Nat) (r : Row Int) (s t : Sid) (hown : r.own = some s) (
   · intro w st w' e h he
     unfold RowIs at *
     cases st with
+    | insertTx l r i =>
+      simp only [exec] at he
+      rw [(insTx_frame (Or.inr ⟨e, he⟩)).1]; exact h
+    | insertLog l k hh sy i t =>
+      simp only [exec] at he
+      rw [(insLog_frame (Or.inr ⟨e, he⟩)).1]; exact h
     | getBalances ps =>
       simp only [exec] at he; unfold getBal at he
       repeat' split at he
